@@ -96,12 +96,21 @@ def _input_of(e):
 def _record(hb, mix, tier, seed, n, special, tag):
     trace = os.path.join(WORKDIR, "trace-%s-%d.ndjson" % (tag, os.getpid()))
     stats = trace + ".stats"
+    last = trace + ".last"
     cv, cf = _caps(tier)
-    C.run([hb, "record", "--seed", str(seed), "--n", str(n), "--mix", mix, "--tier", tier,
-           "--special", "1" if special else "0", "--out", trace, "--stats", stats,
-           "--cap-virtual", cv, "--cap-full", cf], timeout=3000)
+    p = C.run([hb, "record", "--seed", str(seed), "--n", str(n), "--mix", mix, "--tier", tier,
+               "--special", "1" if special else "0", "--out", trace, "--stats", stats, "--last", last,
+               "--cap-virtual", cv, "--cap-full", cf], timeout=3000, check=False)
+    if p.returncode != 0:
+        # the process died (abort, stack overflow, kill): totality is part of C16 - attribute it to the input
+        inp = json.load(open(last)) if os.path.exists(last) else None
+        if inp is None:
+            raise C.ToolError("serde record failed before any input (%d):\n%s" % (p.returncode, (p.stdout or "")[-2000:]))
+        return None, {"crash": inp, "rc": p.returncode, "tail": (p.stdout or "")[-600:]}
     st = json.load(open(stats))
     os.remove(stats)
+    if os.path.exists(last):
+        os.remove(last)
     return trace, st
 
 
@@ -303,7 +312,7 @@ PLAN = {
     # prop: (MC kinds, trace mix, scenarios per shard (quick, thorough), shards (quick, thorough), special)
     "C15": (["tree", "prefix", "bytes"], "C15", (700, 3000), (4, 8), True),
     "C16": (["bytes", "prefix"], "C16", (1000, 4000), (4, 8), False),
-    "C29": (["limit"], "C29", (150, 800), (4, 8), False),
+    "C29": (["limit"], "C29", (400, 1200), (4, 8), False),
 }
 
 
@@ -345,6 +354,12 @@ def check(prop, tier, seed):
     hwm = 0
     for s in range(shards):
         trace, st = _record(hb, mix, tier, seed * 1000 + s, per, special and s == 0, "%s-%d" % (prop, s))
+        if trace is None:
+            v = C.Violation(prop, "the recorder process died (rc %d) while running the library on %s" % (
+                st["rc"], json.dumps(st["crash"])[:300]), {"direction": "impl->spec", "crash_input": st["crash"], "output": st["tail"]})
+            v.signature = "%s:abort:%s" % (prop, _h(st["crash"]))
+            out.violations.append(v)
+            continue
         hwm = max(hwm, st["hwm_kb"])
         jobs.append((trace, "%s-%d" % (prop, s)))
     seen = set()
